@@ -171,7 +171,9 @@ class UniformInt(DiscreteRandomVariable):
         return self.lo + (self.hi - self.lo)/2
 
     def sample(self):
-        return math.floor(self.lo + unit()*(self.hi-self.lo+1))
+        # The offset is floored before it is added to lo (in integer arithmetic):
+        # in floating point lo + u*(hi-lo+1) can round up to hi+1.
+        return min(self.hi, self.lo + math.floor(unit()*(self.hi-self.lo+1)))
 
     def __str__(self):
         return f"UniformInt(lo={self.lo}, hi={self.hi})"
